@@ -111,6 +111,7 @@ def run(ctx):
     check_sect(ctx, P)
     check_sel(ctx, P)
     check_alias(ctx, P)
+    check_alias_domain(ctx, P)
     check_verdefault(ctx, P)
     ctx.assume("libelf hands back the fields of the symbol table entries faithfully; names, sizes, addresses and the "
                "version strings are runtime values read from the binary and are not decided here (the oracle of the "
@@ -522,6 +523,48 @@ def check_alias(ctx, P):
                                ("not on the branch where the address was already taken", guard_ok)) if not o))
     ctx.ob("R-SYMALIAS", "a second symbol at an address becomes an alias of the first", ok_call is not None, f.loc(ok_call) if ok_call else f.loc(),
            "`%s`" % expr_str(f, ok_call)[:80] if ok_call else why)
+
+
+def check_alias_domain(ctx, P):
+    """R-SYMALIAS (domain): the address map is keyed by st_value, which is an address only for defined, non-common
+    symbols (for a symbol in SHN_COMMON st_value holds the alignment, ELF gABI).  In symtab::load_, in the world where the
+    symbol is a common symbol, setup_symbol_lookup_tables() is unreachable; for an undefined symbol either the call or,
+    inside the callee, the insertion into addr_symbol_map_ is unreachable."""
+    fs = [f for f in P.fn("abigail::symtab_reader::symtab::load_") if not f.dep and f.cfg() is not None and
+          any((f.decl(x) or {}).get("n") == "gelf_getsym" for x in f.nodes() if x["k"] == "CallExpr")]
+    if len(fs) != 1:
+        raise AnalysisBroken("anchor vanished: symtab::load_(Elf*, ...)")
+    f = fs[0]
+    g = fn1(P, "abigail::symtab_reader::symtab::setup_symbol_lookup_tables")
+    calls = [x for x in f.nodes() if x["k"] in ("CallExpr", "CXXMemberCallExpr") and (f.decl(x) or {}).get("u") == g.u]
+    if not calls:
+        raise AnalysisBroken("anchor vanished: symtab::load_ no longer calls setup_symbol_lookup_tables")
+
+    def reach(fn, world):
+        def atom(e):
+            if e["k"] == "CXXMemberCallExpr":
+                n = (fn.decl(e) or {}).get("n")
+                if n in world:
+                    return [world[n]]
+            return None
+        W = World(fn, atom)
+        seen, _ = W.blocks()
+        return {e["i"] for b in seen for e in fn.cfg().blocks[b].elems}
+    r = reach(f, {"is_common_symbol": True, "is_defined": True})
+    ok = not any(c["i"] in r for c in calls)
+    ctx.ob("R-SYMALIAS", "a common symbol (st_value = alignment) never enters the address map", ok, f.loc(calls[0]),
+           "setup_symbol_lookup_tables() is unreachable when is_common_symbol()" if ok else
+           "setup_symbol_lookup_tables() is reached for a symbol in SHN_COMMON: its st_value is an alignment, so unrelated common "
+           "symbols of equal alignment are recorded as aliases of each other")
+    r = reach(f, {"is_common_symbol": False, "is_defined": False})
+    called = any(c["i"] in r for c in calls)
+    emp = [x for x in g.nodes() if x["k"] == "CXXMemberCallExpr" and (g.decl(x) or {}).get("n") in ("emplace", "insert") and
+           any((g.decl(y) or {}).get("n") == "addr_symbol_map_" for y in walk(member_call_object(x)) if y["k"] == "MemberExpr")]
+    rg = reach(g, {"is_defined": False})
+    ok = (not called) or not any(x["i"] in rg for x in emp)
+    ctx.ob("R-SYMALIAS", "an undefined symbol never enters the address map", ok, f.loc(calls[0]),
+           "guarded in the caller or in the callee" if ok else
+           "an undefined symbol (st_value 0) is inserted into addr_symbol_map_: all undefined symbols become aliases of each other")
 
 
 # ------------------------------------------------------------------------------------------------ R-VERDEFAULT
